@@ -597,6 +597,11 @@ def escaping_prestate_writes(an, mod, clsname):
         s = an.summary(mod, q)
         if s is None or q.endswith(".__init__"):
             continue
+        mname = q.split(".")[-1]
+        if mname.startswith("_") and not mname.startswith("__"):
+            # a private helper works on what its caller prepared: what matters is whether the PUBLIC method that (transitively) calls it has
+            # rebound the attribute before the call -- the helper's writes are propagated to its callers' summaries (Flow.repo_call) and judged there
+            continue
         seen = set()
         for site in s.sites:
             for attr in sorted(site.pre & escaping):
